@@ -278,12 +278,30 @@ def hard_check(solver, timeout_ms):
         WATCHDOG.disarm()
 
 
+class _Budget:
+    """wall-clock spent on UNDECIDED (timed-out) queries of the contract being verified: when a changed function makes
+    query after query run into its timeout, the remaining obligations are not attempted (they are UNDECIDED at once
+    and the bounded stand-in decides), so a check stays within minutes instead of hours"""
+    spent = 0.0
+    limit = None
+
+
 def check_valid(ctx, formula, timeout_ms, want_model_vars=None, uf_apps=None):
     """is `pc & facts => formula` valid?"""
     formula = L._b(formula) if not isinstance(formula, bool) else formula
     t0 = time.time()
     if formula is True:
         return dict(verdict=PROVED, backend="fold", time=0.0)
+    if _Budget.limit is not None and _Budget.spent > _Budget.limit:
+        return dict(verdict=UNDECIDED, backend="z3", time=0.0, reason="solver: time budget of this contract exhausted by earlier timeouts")
+    r = _check_valid(ctx, formula, timeout_ms, want_model_vars, uf_apps)
+    if r["verdict"] == UNDECIDED:
+        _Budget.spent += time.time() - t0
+    return r
+
+
+def _check_valid(ctx, formula, timeout_ms, want_model_vars=None, uf_apps=None):
+    t0 = time.time()
     if formula is not False and not mentions_seq(formula) and any(mentions_seq(f) for f in ctx.sink.facts + ctx.pc):
         # a goal without sequence terms is first tried with the sequence-free hypotheses only (dropping hypotheses is
         # sound for a validity proof; it keeps the sequence solver out of pure arithmetic / bit-vector goals)
@@ -353,6 +371,8 @@ def _split(target):
 
 def verify_contract(contract, timeout_ms=10000, max_paths=400, only=None):
     """returns dict(obligations=[...], paths=n, calls=..., undecided=[...])"""
+    _Budget.spent = 0.0
+    _Budget.limit = max(60.0, 6.0 * timeout_ms / 1000.0)
     f = resolve_target(contract.target)
     results = []
     work = [[]]
